@@ -16,10 +16,9 @@ def run_harnesses(root, repo, harnesses, build):
     env = dict(os.environ, CARGO_NET_OFFLINE='true', CARGO_TARGET_DIR=os.path.join(build, 'kani-target'))
     names = [h['name'] for h in harnesses]
     cmd = ['cargo', 'kani', '--manifest-path', os.path.join(crate, 'Cargo.toml'), '-Z', 'function-contracts', '-Z', 'stubbing',
-           '--output-format', 'regular', '-j', '8']
+           '--output-format', 'terse', '-j', '8']
     for n in names:
         cmd += ['--harness', n]
-    cmd += ['--exact']
     res['cmd'] = 'CARGO_NET_OFFLINE=true ' + ' '.join(cmd)
     t0 = time.time()
     try:
@@ -30,14 +29,36 @@ def run_harnesses(root, repo, harnesses, build):
         return res
     out = p.stdout + '\n' + p.stderr
     res['wall_s'] = time.time() - t0
-    # split per harness
-    blocks = re.split(r'\nChecking harness ', out)
-    seen = set()
-    for b in blocks[1:]:
-        m = re.match(r'(\S+?)\.\.\.', b)
-        if not m:
+    # parse the -j output: "Thread k: Checking harness H..." then "Thread k: " followed by that harness's result block
+    cur = {}
+    blocks = {}
+    active = None
+    for ln in out.split('\n'):
+        m = re.match(r'^Thread (\d+): Checking harness (\S+?)\.\.\.', ln)
+        if m:
+            cur[m.group(1)] = m.group(2)
+            active = None
             continue
-        hname = m.group(1).split('::')[-1]
+        m = re.match(r'^Thread (\d+):\s*$', ln)
+        if m:
+            active = cur.get(m.group(1))
+            blocks.setdefault(active, [])
+            continue
+        m = re.match(r'^Checking harness (\S+?)\.\.\.', ln)
+        if m:
+            active = m.group(1)
+            blocks.setdefault(active, [])
+            continue
+        if ln.startswith('Manual Harness Summary') or ln.startswith('Complete - '):
+            active = None
+        if active is not None:
+            blocks[active].append(ln)
+    seen = set()
+    for full, lines in blocks.items():
+        if full is None:
+            continue
+        b = '\n'.join(lines)
+        hname = full.split('::')[-1]
         seen.add(hname)
         ok = 'VERIFICATION:- SUCCESSFUL' in b
         bad = 'VERIFICATION:- FAILED' in b
@@ -46,27 +67,32 @@ def run_harnesses(root, repo, harnesses, build):
         mt = re.search(r'Verification Time: ([0-9.]+)s', b)
         if mt:
             res['solver_s'] += float(mt.group(1))
+        mcov = re.search(r'\*\* (\d+) of (\d+) cover properties satisfied', b)
+        if mcov and int(mcov.group(1)) != int(mcov.group(2)):
+            res['tool_errors'].append('vacuity: harness %s: only %s of %s cover properties satisfied (an assume excludes the covered case)' % (hname, mcov.group(1), mcov.group(2)))
         res['checks'] += ntot
         res['checks_ok'] += ntot - nfail
-        res['summary'].append({'harness': hname, 'checks': ntot, 'failed': nfail, 'time_s': float(mt.group(1)) if mt else None, 'result': 'ok' if ok else ('failed' if bad else 'unknown')})
-        res['samples'].append('kani harness %s: %d checks' % (hname, ntot))
+        res['summary'].append({'harness': full, 'checks': ntot, 'failed': nfail, 'covers': mcov.group(0) if mcov else None,
+                               'time_s': float(mt.group(1)) if mt else None, 'result': 'ok' if ok else ('failed' if bad else 'unknown')})
+        res['samples'].append('kani harness %s: %d CBMC checks, all inputs of the stated bit domain' % (full, ntot))
         if not ok and not bad:
             res['tool_errors'].append('harness %s: no verdict: %s' % (hname, b[-400:]))
         if bad:
-            # failed checks
-            fails = re.findall(r'Check \d+: (\S+)\n\s+- Status: FAILURE\n\s+- Description: "([^"]*)"(?:\n\s+- Location: ([^\n]*))?', b)
-            unwind = [f for f in fails if 'unwinding assertion' in f[1]]
-            if unwind and len(unwind) == len(fails):
+            fails = re.findall(r'Failed Checks: ([^\n]*)\n\s*File: "([^"]*)", line (\d+), in (\S+)', b)
+            if not fails:
+                fails = [(d, '?', '0', '?') for d in re.findall(r'Failed Checks: ([^\n]*)', b)]
+            real = [f for f in fails if 'unwinding assertion' not in f[0]]
+            if fails and not real:
                 res['tool_errors'].append('harness %s: only unwinding assertions failed (bound too small)' % hname)
                 continue
-            for chk, desc, loc in fails:
-                if 'unwinding assertion' in desc:
-                    continue
+            if not real:
+                res['tool_errors'].append('harness %s FAILED but no failed check was parsed: %s' % (hname, b[-400:]))
+            for desc, file, line, fn in real:
                 res['failed'].append({
                     'name': 'kani::%s::%s' % (hname, re.sub(r'[^A-Za-z0-9_.]+', '_', desc)[:80]),
                     'unit': 'kani', 'function': hname, 'kind': 'kani check failed', 'clause': desc,
-                    'site': {'gen_line': None, 'src_file': loc, 'src_line': None, 'text': chk},
-                    'rendered': 'Kani harness %s\nCheck %s\nDescription: %s\nLocation: %s' % (hname, chk, desc, loc),
+                    'site': {'gen_line': None, 'src_file': file, 'src_line': int(line), 'text': fn},
+                    'rendered': 'Kani harness %s\nFailed check: %s\nLocation: %s:%s in %s' % (full, desc, file, line, fn),
                 })
     for n in names:
         if n not in seen:
